@@ -13,7 +13,7 @@ open StepModel.Generated
 
 inductive Tok
   | id (s : String) | int (n : Nat) | real (s : List Char) | str (raw : List Char) | estr (s : String) | bin (s : String)
-  | kw (s : String)                 -- TRUE FALSE UNKNOWN PI E SELF ? QUERY
+  | kw (s : String)                 -- TRUE FALSE UNKNOWN PI CONST_E SELF ? QUERY
   | op (o : BinOp) | not
   | lp | rp | lb | rb | comma | colon | dot | bslash | bar | allIn
   deriving DecidableEq, Repr, Inhabited
@@ -23,6 +23,10 @@ def unescQ : List Char → List Char
   | [] => []
   | [c] => [c]
   | c :: d :: r => if c = '\'' ∧ d = '\'' then '\'' :: unescQ r else c :: unescQ (d :: r)
+
+/-- how the scanner reads the word exppp writes for a constant: the keyword, if the word is its spelling in the scanner's table -/
+def constTok (text tok : String) : Tok :=
+  if lookup2 text ExpPrec.scannerKeywords = some tok then .kw text else .id text
 
 def litToks : Lit → List Tok
   | .int n => [.int n]
@@ -34,7 +38,7 @@ def litToks : Lit → List Tok
   | .estr s => [.estr s]
   | .bin s => [.bin (if ExpPrec.binaryPrintedFrom = ExpPrec.binaryStoredIn then s else "(null)")]
   | .ltrue => [.kw "TRUE"] | .lfalse => [.kw "FALSE"] | .lunknown => [.kw "UNKNOWN"]
-  | .pi => [.kw "PI"] | .e => [.kw "E"] | .infinity => [.kw "?"] | .self => [.kw "SELF"]
+  | .pi => [constTok ExpPrec.piText "TOK_PI"] | .e => [constTok ExpPrec.eText "TOK_E"] | .infinity => [.kw "?"] | .self => [.kw "SELF"]
 
 /-- a count whose own type was overwritten with `Type_Repeat` is printed with "%d" from `u.integer` -/
 def countTok : Expr → Tok
@@ -83,7 +87,7 @@ def simpleMin : Nat := 16
 
 def kwLit : String → Option Lit
   | "TRUE" => some .ltrue | "FALSE" => some .lfalse | "UNKNOWN" => some .lunknown
-  | "PI" => some .pi | "E" => some .e | "?" => some .infinity | "SELF" => some .self
+  | "PI" => some .pi | "CONST_E" => some .e | "?" => some .infinity | "SELF" => some .self
   | _ => none
 
 mutual
